@@ -329,44 +329,55 @@ def rule_W1(ctx):
         S = _array_size(f, batch)
         if S is None:
             raise AnalysisBroken("lbuf_wr: batch array size unknown")
+        from ..bounds import path_states
+
+        def fill_inline(call):
+            # a helper of the file that is handed the address of the fill (it flushes and resets)
+            g = ctx.prog.resolve(f, call["fn"]) if call.get("fn") else None
+            if g is None or g.file != f.file or g is f:
+                return None
+            for a_ in call["args"]:
+                a_ = strip_casts(a_)
+                if a_["k"] == "un" and a_["op"] == "&" and a_["e"]["k"] == "ref" and a_["e"]["name"] == fill:
+                    return g
+            return None
+
+        def fill_hyps(subst):
+            return [subst.get(fill) or Lin({fill: 1})]          # fill >= 0 (inductive: see below)
         for c in f.calls("memcpy"):
             if not mentions(c["args"][0], batch):
                 continue
+            try:
+                sts = path_states(f, c["id"], init_hyps=[], header_hyps=fill_hyps, inline=fill_inline,
+                                  max_paths=4000)
+            except OverflowError:
+                raise AnalysisBroken("lbuf_wr: too many paths")
+            if not sts:
+                raise AnalysisBroken("lbuf_wr: memcpy into the batch not reachable")
             verdicts = []
-            pos = cfg.pos(c)
-            for items, end in paths:
-                ids = [x[1] for x in items if x[0] == "ev"]
-                if c["id"] not in ids:
-                    continue
-                hyps = [Lin({fill: 1}), Lin({nlkey: 1})]   # fill >= 0, nl >= 0 (see below)
-                subst = {}
-                for it in items:
-                    if it[0] == "blk":
-                        continue
-                    if it[0] == "ev":
-                        if it[1] == c["id"]:
-                            break
-                        n = f.nodes.get(it[1])
-                        if n and n["k"] == "bin" and n["l"]["k"] == "ref" and n["l"]["name"] == fill:
-                            if n["op"] == "=":
-                                subst[fill] = linearize(n["r"], subst) or Lin({"?": 1})
-                            elif n["op"] == "+=":
-                                subst[fill] = (subst.get(fill) or Lin({fill: 1})) + (
-                                    linearize(n["r"], subst) or Lin({"?": 1}))
-                    else:
-                        hyps += cmp_constraints(f.nodes[it[1]], it[2], subst)
+            und = False
+            for subst, hyps, items in sts:
+                lin_ = subst["__linfn__"]
                 cur_fill = subst.get(fill) or Lin({fill: 1})
-                ln_len = linearize(c["args"][2])
-                verdicts.append(prove_le(cur_fill + ln_len, Lin(k=S), hyps))
-            if not verdicts:
-                raise AnalysisBroken("lbuf_wr: memcpy into the batch not on an iteration path")
-            if all(v == PROVEN for v in verdicts):
+                ln_len = lin_(strip_casts(c["args"][2]))
+                if ln_len is None:
+                    und = True
+                    continue
+                nn = [Lin({a_: 1}) for a_ in ln_len.c if a_.startswith("strlen(") or a_ == nlkey]
+                v = prove_le(cur_fill + ln_len, Lin(k=S), hyps + nn)
+                if v != PROVEN and ("__havoc__" in subst or "__callhavoc__" in subst):
+                    und = True
+                    continue
+                verdicts.append(v)
+            if und and all(v == PROVEN for v in verdicts):
+                ctx.inconclusive("lbuf_wr", "batch bound", "a helper on the way to the copy is not summarised", f.loc(c))
+            elif all(v == PROVEN for v in verdicts):
                 ctx.ok("lbuf_wr", "fill + len <= sizeof(batch) on %d paths" % len(verdicts),
                        loc=f.loc(c))
             else:
                 ctx.violation("lbuf_wr", "batch bound",
                               "on some path to the copy into %s[%d] the guards do not imply "
-                              "%s + %s <= %d (%s)" % (batch, S, fill, nlkey, S, verdicts), f.loc(c))
+                              "%s + %s <= %d (%s)" % (batch, S, fill, nlkey, S, sorted(set(verdicts))), f.loc(c))
         # fill is non-negative: all stores are = 0 or += strlen-derived
         for n, lv, op, rhs in stores(f.body):
             if lv.get("name") == fill and lv["k"] in ("ref", "var"):
@@ -819,51 +830,85 @@ def rule_W5(ctx):
                    loc=f.loc(o))
     # callers: path and ts come from the same slot
     n_callers = 0
+    from ..cfg import paths_to
+    from ..util import path_consistent
+
+    def same_path_fact(cond, truth, a_path):
+        """does `cond` having this truth say that ex_path() equals the path argument?"""
+        c0, t0 = negate_truth(cond, truth)
+        sc = None
+        eq = None
+        if is_call(c0, "strcmp"):
+            sc, eq = c0, (not t0)                 # strcmp(..) false <=> equal
+        elif c0["k"] == "bin" and c0["op"] in ("==", "!=") and is_call(strip_casts(c0["l"]), "strcmp") \
+                and cval(c0["r"]) == 0:
+            sc, eq = strip_casts(c0["l"]), ((c0["op"] == "==") == t0)
+        if sc is None or not eq:
+            return False
+        return any(key(strip_casts(x)) == key(a_path) for x in sc["args"]) and any(
+            is_call(strip_casts(x), "ex_path") for x in sc["args"])
     for g in prog.funcs.values():
         for c in g.calls("lbuf_save"):
             n_callers += 1
             a_path, a_ts = strip_casts(c["args"][3]), strip_casts(c["args"][5])
-            good = False
-            why = ""
-            if a_path["k"] == "member" and a_ts["k"] == "member" and a_path["field"] == "path" \
-                    and a_ts["field"] == "mtime" and key(a_path["base"]) == key(a_ts["base"]):
-                good = True
-            elif a_ts["k"] == "ref":
-                # ts variable: cond ? slot.mtime : 0 with cond == same-path test
-                init = None
-                for n, lv, op, rhs in stores(g.body):
-                    if op in ("=", "init") and lv.get("name") == a_ts["name"]:
-                        init = rhs
-                init = strip_casts(init) if init else None
-                if init is not None and init["k"] == "cond":
-                    c0, t0 = negate_truth(init["c"], True)
-                    same = is_call(c0, "strcmp") and any(
-                        key(strip_casts(x)) == key(a_path) for x in c0["args"]) and any(
-                        is_call(strip_casts(x), "ex_path") for x in c0["args"])
-                    # strcmp == 0 <=> same path: truth False of strcmp selects t branch
-                    own = init["t"] if not t0 else init["f"]
-                    oth = init["f"] if not t0 else init["t"]
-                    if c0["k"] == "bin" and c0["op"] in ("==", "!=") and is_call(c0["l"], "strcmp"):
-                        sc = c0["l"]
-                        same = any(key(strip_casts(x)) == key(a_path) for x in sc["args"]) and any(
-                            is_call(strip_casts(x), "ex_path") for x in sc["args"]) and cval(c0["r"]) == 0
-                        eq = (c0["op"] == "==") == t0
-                        own = init["t"] if eq else init["f"]
-                        oth = init["f"] if eq else init["t"]
-                    if same and own["k"] == "member" and own["field"] == "mtime" and cval(oth) == 0:
-                        good = True
+            bad = None
+            n_paths = 0
+            try:
+                plist = paths_to(g.cfg, g.cfg.entry, c["id"], max_paths=3000)
+            except OverflowError:
+                ctx.inconclusive(g.name, "path/timestamp pairing", "too many paths", g.loc(c))
+                continue
+            for items in plist:
+                if not path_consistent(g, items):
+                    continue
+                n_paths += 1
+                byid = {x[1]: x[2] for x in items if x[0] == "br"}
+                facts = [(g.nodes[x[1]], x[2]) for x in items if x[0] == "br"]
+                # the value of the timestamp argument on this path
+                val = a_ts
+                if a_ts["k"] == "ref" and a_ts.get("cat") in ("local", "param"):
+                    last = None
+                    for x in items:
+                        if x[0] != "ev":
+                            continue
+                        n = g.nodes.get(x[1])
+                        if n is None:
+                            continue
+                        if n["k"] == "var" and n["name"] == a_ts["name"] and n.get("init") is not None:
+                            last = n["init"]
+                        if n["k"] == "bin" and n["op"] == "=" and n["l"]["k"] == "ref" and n["l"]["name"] == a_ts["name"]:
+                            last = n["r"]
+                    if last is None:
+                        if a_ts.get("cat") == "param":
+                            continue              # judged at the callers of this helper: not decided here
+                        bad = ("%s is not assigned on a path" % a_ts["name"], items)
+                        break
+                    val = strip_casts(last)
+                while val["k"] == "cond":
+                    cid = strip_casts(val["c"])["id"]
+                    if cid in byid:
+                        facts.append((g.nodes[cid], byid[cid]))
+                        val = strip_casts(val["t"] if byid[cid] else val["f"])
                     else:
-                        why = "timestamp %s" % key(init)
-                else:
-                    why = "timestamp %s" % key(init)
-            elif cval(a_ts) == 0:
-                good = True   # unknown file: treated as foreign
-            if good:
-                ctx.ok(g.name, "path and timestamp of the same buffer", loc=g.loc(c))
-            else:
+                        break
+                v = cval(val)
+                if v is not None and v <= 0:
+                    continue                      # unknown file: treated as foreign by lbuf_save
+                if val["k"] == "member" and val["field"] == "mtime":
+                    if a_path["k"] == "member" and a_path["field"] == "path" and \
+                            key(a_path["base"]) == key(val["base"]):
+                        continue
+                    if key(strip_casts(val["base"])) in ("bufs[0]", "(*bufs)") and any(
+                            same_path_fact(cc, tt, a_path) for cc, tt in facts):
+                        continue
+                bad = ("timestamp %s" % key(val), items)
+                break
+            if bad:
                 ctx.violation(g.name, "path/timestamp pairing",
                               "lbuf_save(path=%s, ts=%s): the timestamp does not belong to "
-                              "that path %s" % (key(a_path), key(a_ts), why), g.loc(c))
+                              "that path (%s)" % (key(a_path), key(a_ts), bad[0]), g.loc(c))
+            elif n_paths:
+                ctx.ok(g.name, "path and timestamp of the same buffer on all %d paths" % n_paths, loc=g.loc(c))
     if n_callers < 2:
         ctx.broken("only %d callers of lbuf_save" % n_callers)
 
@@ -875,13 +920,44 @@ def rule_W6(ctx):
     cfg = f.cfg
     pn = [p["name"] for p in f.params]
     loc = pn[0]
-    saves = list(f.calls("lbuf_save"))
+    # the save: lbuf_save itself, or a helper of the file that calls it and reports its failure
+    # as a non-zero status (checked: from lbuf_save's failing edge only non-zero returns)
+    saves = [(s_, "!=NULL") for s_ in f.calls("lbuf_save")]
     if not saves:
-        raise AnalysisBroken("ec_write does not call lbuf_save")
-    # success edge of lbuf_save
+        for c_ in f.calls():
+            h = prog.resolve(f, c_["fn"]) if c_.get("fn") else None
+            if h is None or h.file != f.file or h is f:
+                continue
+            inner = list(h.calls("lbuf_save"))
+            if not inner:
+                continue
+            faithful = True
+            for s_ in inner:
+                r_ = result_test(h, s_, "!=NULL")
+                if r_[0] != "branch":
+                    faithful = False
+                    continue
+                fail_start = h.cfg.blocks[r_[1]].succ[r_[2]]
+                seen_b = h.cfg.reachable_blocks(fail_start) | {fail_start}
+                for rn in h.cfg.return_nodes():
+                    if h.cfg.pos(rn)[0] in seen_b and not (cval(rn.get("e")) is not None and cval(rn["e"]) != 0):
+                        faithful = False
+                ok_start = h.cfg.blocks[r_[1]].succ[1 - r_[2]]
+                # and a zero status only past the success edge
+                for rn in h.cfg.return_nodes():
+                    if cval(rn.get("e")) == 0 and h.cfg.search(
+                            h.cfg.entry, lambda e, t=rn["id"]: e == t,
+                            edge_ok=lambda b, k, s2, bid=r_[1], kk=1 - r_[2]: not (b == bid and k != kk),
+                            start_block=True) is None:
+                        pass
+            if faithful:
+                saves.append((c_, "!=0"))
+    if not saves:
+        raise AnalysisBroken("ec_write does not call lbuf_save (nor a helper that reports its failure)")
+    # success edge of the save
     succ_edges = set()
-    for s in saves:
-        r = result_test(f, s, "!=NULL")
+    for s, conv in saves:
+        r = result_test(f, s, conv)
         if r[0] != "branch":
             continue
         _, bid, k, cond = r
@@ -982,8 +1058,8 @@ def rule_W6(ctx):
     # from lbuf_save's success edge, every path on which the path is the buffer's own
     # passes lbuf_saved or a dirtying call before returning
     dirty_fns = tuple(x for x in ("lbuf_unsaved", "lbuf_dirty") if prog.has_func(x))
-    for s in saves:
-        r = result_test(f, s, "!=NULL")
+    for s, conv in saves:
+        r = result_test(f, s, conv)
         if r[0] != "branch":
             continue
         _, bid, k, cond = r
@@ -1032,6 +1108,26 @@ def _first_ev(f, n):
         if d["id"] in f.cfg.posmap:
             return d["id"]
     return n["id"]
+
+
+def resolve_flags(func, cond):
+    """replace a reference to a local that was assigned a logical expression exactly once by
+    that expression (for tests made through a flag such as `failed = nr != 0`)"""
+    from ..util import resolve_local
+    c = strip_casts(cond)
+    if c is None:
+        return cond
+    if c["k"] == "ref" and c.get("cat") == "local":
+        r = resolve_local(func, c)
+        if r is not c and r["k"] in ("bin", "un"):
+            return r
+        return cond
+    if c["k"] == "un" and c["op"] == "!":
+        inner = resolve_flags(func, c["e"])
+        if inner is not c["e"]:
+            return {"k": "un", "op": "!", "e": inner, "id": c["id"], "ln": c.get("ln")}
+    return cond
+
 
 
 def read_sites(prog):
@@ -1122,6 +1218,7 @@ def rule_W7(ctx):
         for e in top.calls("lbuf_edit"):
             eof = False
             for cc, t in _facts(top, e):
+                cc = resolve_flags(top, cc)
                 if mentions(cc, res_top):
                     tz = _eval(cc, top_node["id"], res_top, 0)
                     tn = _eval(cc, top_node["id"], res_top, -1)
@@ -1147,6 +1244,7 @@ def rule_W7(ctx):
             for v, want_fail in ((-1, True), (0, False)):
                 reach = True
                 for cc, t in _facts(top, r):
+                    cc = resolve_flags(top, cc)
                     if mentions(cc, res_top):
                         tv = _eval(cc, top_node["id"], res_top, v)
                         if tv is None:
@@ -1155,7 +1253,7 @@ def rule_W7(ctx):
                             reach = False
                 if not reach:
                     continue
-                rv = _eval(e, top_node["id"], res_top, v)
+                rv = _eval(resolve_flags(top, e) if e is not None else e, top_node["id"], res_top, v)
                 if rv is None:
                     unknown = True
                 elif bool(rv) != want_fail:
